@@ -203,8 +203,10 @@ pub fn do_read(t: &Tables, s: &str) -> String {
     if strip(&vb) != strip(&verdict) { fi.push_str(&format!(" # FOLLOWERDEP builder+trace={}", vb)) }
     if strip(&vb2) != strip(&verdict) { fi.push_str(&format!(" # FOLLOWERDEP builder={}", vb2)) }
     if bres2 != bres { fi.push_str(&format!(" # FOLLOWERDEP builder-without-trace={}", bres2)) }
+    // G: the verdict once more, compared with the grammar automaton of the Lean specification (Purr/Spec/Automaton.lean)
     format!(
-        "{} # EV {} # W {} # B {} # T {} # P {} # D {}{}",
+        "{} # G {} # EV {} # W {} # B {} # T {} # P {} # D {}{}",
+        verdict,
         verdict,
         join_sp(&events.iter().map(|e| e.s()).collect::<Vec<_>>()),
         wtext,
